@@ -264,7 +264,7 @@ def run(ctx):
         print("replay: no divergence")
         return 0
     rep = core.Report(ctx, "model_checking", assumptions=[
-        "both sides are run on exact-rational operand patterns inside the common domain of the identity (moderate logits for the sigmoid/BCE pair)",
+        "both sides are run on exact-rational operand patterns inside the common domain of the identity (moderate logits for the sigmoid/BCE pair and for log / softmax: the composition log(softmax(x)) underflows for widely separated logits where the fused form does not)",
         "pooling identity through unfold needs pad value -inf for max pooling (the library's own pad_value argument)"])
     rep.rule = "every configuration TLC enumerates in Identities.tla (spec-level invariant + differential replay) and every case of the loss/softmax/pool2d families for the transcendental and pooling pairs"
     consts = dict(Family="id", MaxBasis=4, WithGrad=False, Sizes={1, 2, 3}, MaxRank=2 if q else 3,
@@ -287,7 +287,8 @@ def run(ctx):
     rep.sample(res.cases[len(res.cases) // 2])
     cases = CC.generate(rep, "NNCatalog", ["loss", "softmax", "pool2d"], CC.nn_consts(q), with_grad=False, timeout=6000)
     for case in cases:
-        if case["pol"] != "MUST":
+        # (the wide-magnitude pattern is outside the common domain: log(softmax(x)) underflows where log_softmax does not)
+        if case["pol"] != "MUST" or case["pat"] == "W":
             continue
         built = nn_pair(sg, case)
         if built is None:
